@@ -800,6 +800,57 @@ def work_chain(item, res):
         res.sample({'chain_bfs': cfg, 'states': len(seen)})
 
 
+GAP_SINGLES = [(20, 6), (21, 6), (22, 6), (25, 6), (30, 22), (41, 41), (64, 45)]
+
+
+def work_gapchain(item, res):
+    """Large / non-default gap settings generated from scratch (no BFS): ensure_address_gap once, then once more after
+    the last address of either chain was used; in both states the chains must be exactly ref(m/chain/0..k), every
+    generated address must resolve to its BIP32 key through account and ledger, and a wallet restored from the same
+    seed with the same usage must hold the same chains."""
+    _, phrase_id, gaps, how = item
+    gaps = tuple(gaps)
+    cfg = {'phrase': phrase_id, 'gaps': list(gaps), 'chain': 'both', 'depth': 4, 'how': how}
+    h = ChainH(phrase_id, gaps, how)
+    try:
+        hist = [('E',)]
+        h.apply(hist[0])
+        res.count('executions')
+        res.count('evaluations')
+        bad = judge_chains(h, phrase_id, res, hist, cfg)
+        lens = [len(h.rows(c)) for c in (0, 1)]
+        if not bad and lens != list(gaps):
+            res.tally('interpretation_only:first_ensure_gap_generated_other_than_gap_addresses')
+        if not bad:
+            for c in (0, 1):
+                op = ('U', c, lens[c] - 1)
+                h.apply(op)
+                hist.append(op)
+            hist.append(('E',))
+            h.apply(('E',))
+            res.count('evaluations')
+            bad = judge_chains(h, phrase_id, res, hist, cfg)
+        if not bad:
+            state = chain_state(h)
+            addresses = [[r['address'] for r in h.rows(c)] for c in (0, 1)]
+    finally:
+        h.close()
+    if not bad:
+        used = tuple(frozenset(n for n, u in state[c] if u) for c in (0, 1))
+        _, raddresses = recover(phrase_id, gaps, used, res)
+        res.count('evaluations')
+        if raddresses != addresses:
+            res.violation({'kind': 'address-chain', 'why': 'restored-wallet-regenerates-different-chain', 'gaps': list(gaps),
+                           'chain': 'both'},
+                          f'gaps {gaps}: after {hist} the chains hold {[len(a) for a in addresses]} addresses, a restored wallet '
+                          f'{[len(a) for a in raddresses]}', {'mode': 'chain', 'cfg': cfg, 'history': [list(o) for o in hist]})
+        else:
+            res.witness('large_gap_chain_generated_from_scratch_is_contiguous_and_restorable')
+            if max(len(a) for a in addresses) > 41:
+                res.witness('chain_longer_than_41_addresses')
+    res.distinct_add('nontrivial', ('gapchain', phrase_id, gaps, how))
+
+
 def _ends_with_e(hist):
     """True if no address was marked used after the last ensure_address_gap (a reload in between is fine)."""
     for op in reversed(hist):
@@ -1200,7 +1251,7 @@ def work_keysweep(item, res):
 def _dispatch(item, res):
     {'tree': work_tree, 'vectors': work_vectors, 'b58all': work_b58_all, 'b58b': work_b58_boundary,
      'corrupt': work_b58_corrupt, 'mn': work_mnemonic, 'chain': work_chain, 'account': work_account,
-     'keys': work_keys, 'keysweep': work_keysweep}[item[0]](item, res)
+     'keys': work_keys, 'keysweep': work_keysweep, 'gapchain': work_gapchain}[item[0]](item, res)
 
 
 def _n_key_firsts(wallet_id, alphabet):
@@ -1257,6 +1308,11 @@ def run(ctx):
             cfgs.append({'phrase': 'P1', 'gaps': [2, g], 'chain': 1, 'depth': chain_depth, 'how': 'seed'})
         cfgs.append({'phrase': 'P0', 'gaps': [3, 2], 'chain': 'both', 'depth': chain_depth - 1, 'how': 'seed'})
     chain_items = [('chain', c) for c in cfgs]
+    chain_items += [('gapchain', 'P0' if k % 2 == 0 else 'P1', list(g), 'seed' if k % 3 == 0 else 'xprv')
+                    for k, g in enumerate(GAP_SINGLES)]
+    if not ctx.quick:
+        chain_items += [('gapchain', 'P1' if k % 2 == 0 else 'P0', [g[1], g[0]], 'xprv') for k, g in enumerate(GAP_SINGLES)]
+        chain_items += [('gapchain', 'P0', [g, g], 'xprv') for g in (19, 23, 39, 40, 42, 43, 60, 61, 62, 63, 83, 84, 100)]
     # account-level key lookup: every order of `depth` operations; item = one first operation
     key_plan = [('K1', 'R', 3), ('K1', 'F', 2)] if ctx.quick else \
                [('K1', 'R', 4), ('K1', 'G', 3), ('K1', 'F', 2), ('K2', 'R', 3), ('K2', 'F', 2)]
@@ -1276,7 +1332,8 @@ def run(ctx):
               'zero runs 0..4 x 4 fills; every substitution (58+6 symbols), adjacent transposition, deletion and every single-bit flip of the '
               'underlying payload||checksum bytes of 20 strings.  Mnemonic: every integer 1..T, every (high word, low word in {0,1,2047}), +-64 around 2048^k (k<=12) '
               'and 2^132.  Chains: BFS over {ensure gap, reload, mark address j used} to depth 5 (7 thorough), gaps 1..3 on '
-              'either chain and on both chains together; in every chain state every generated address is looked up (private '
+              'either chain and on both chains together, plus from-scratch singles with (receiving, change) gaps (20,6) (21,6) '
+              '(22,6) (25,6) (30,22) (41,41) (64,45) - ensure gap, use the last address of each chain, ensure gap, restore; in every chain state every generated address is looked up (private '
               'and public key, via account and ledger, chain order alternating).  Key lookup: every sequence of d operations '
               'over {private/public key lookup via Account / AddressManager / Ledger for first and last index of either '
               'chain of either account of one wallet, lock, unlock} on fresh Account objects, each followed by a sweep over '
@@ -1286,6 +1343,7 @@ def run(ctx):
         exhaustive=True,
         bounds={'tree_depth': depth, 'regtest_tree_depth': depth - 2, 'base58check_all_payloads_up_to_bytes': max_len,
                 'mnemonic_dense_range_top': top, 'chain_bfs_depth': chain_depth, 'gaps': [1, 2, 3],
+                'from_scratch_gap_settings': [list(g) for g in GAP_SINGLES],
                 'key_lookup_plan(wallet, alphabet, sequence length)': [list(x) for x in key_plan]},
         bound_completed=f'tree depth {depth}; chain BFS depth {chain_depth}',
         assumptions=[
@@ -1311,7 +1369,9 @@ def run(ctx):
                             'account_restored_from_xpub_regenerates_same_addresses',
                             'private_keys_requested_on_both_chains_of_one_account_object',
                             'lookup_after_lock_and_unlock', 'private_keys_requested_from_two_accounts_of_one_wallet',
-                            'every_generated_address_looked_up_in_four_chain_orders'],
+                            'every_generated_address_looked_up_in_four_chain_orders',
+                            'large_gap_chain_generated_from_scratch_is_contiguous_and_restorable',
+                            'chain_longer_than_41_addresses'],
     )
 
 
